@@ -49,6 +49,7 @@ LEVEL["decided"] += " (R02.8) reduce, sum, all, any, min, max, sorted, nlargest,
 LEVEL["decided"] += " (R02.6) every raise of the empty-input error has the builtin's class; (R02.10) no __aexit__ of the library returns a truthy value it did not derive from the exception."
 LEVEL["decided"] += ' (R02.11) nlargest / nsmallest take their first n items through a borrowed view that cannot close the source (R07.4, shared).'
 LEVEL["decided"] += " (R02.12) the user's key is never handed to list.sort / sorted / min / max of the standard library (R03.14, shared)."
+LEVEL["decided"] += " (R02.13) a key / reduction function is used whatever its truth value (R03.12, shared); R02.3 (no in-place operation on the caller's objects), R02.5 and R02.6 read the inlined views, so a private collecting / folding step is seen through."
 
 AGGREGATIONS = ["builtins.all", "builtins.any", "builtins.sum", "builtins.min", "builtins.max", "builtins._min_max",
                 "builtins.list", "builtins.tuple", "builtins.set", "builtins.dict", "builtins.sorted",
